@@ -8,15 +8,15 @@ From C06 Require Import C06Spec C06_gen C06Tactics C06Statements.
 Import ListNotations.
 Local Open Scope R_scope.
 
-Lemma kirchhoff_from_cauchy_ok1 : kirchhoff_from_cauchy_stmt1.
-Proof. unfold kirchhoff_from_cauchy_stmt1. jac ltac:(unfold f_kirchhoff_from_cauchy1_l, f_kirchhoff_from_cauchy1, D_kirchhoff_from_cauchy1_l, D_kirchhoff_from_cauchy1) ltac:(idtac). Qed.
-Lemma kirchhoff_from_cauchy_ok2 : kirchhoff_from_cauchy_stmt2.
-Proof. unfold kirchhoff_from_cauchy_stmt2. jac ltac:(unfold f_kirchhoff_from_cauchy2_l, f_kirchhoff_from_cauchy2, D_kirchhoff_from_cauchy2_l, D_kirchhoff_from_cauchy2) ltac:(idtac). Qed.
-Lemma kirchhoff_from_cauchy_ok3 : kirchhoff_from_cauchy_stmt3.
-Proof. unfold kirchhoff_from_cauchy_stmt3. jac ltac:(unfold f_kirchhoff_from_cauchy3_l, f_kirchhoff_from_cauchy3, D_kirchhoff_from_cauchy3_l, D_kirchhoff_from_cauchy3) ltac:(idtac). Qed.
-Lemma cauchy_from_kirchhoff_ok1 : cauchy_from_kirchhoff_stmt1.
-Proof. unfold cauchy_from_kirchhoff_stmt1. jac ltac:(unfold f_cauchy_from_kirchhoff1_l, f_cauchy_from_kirchhoff1, D_cauchy_from_kirchhoff1_l, D_cauchy_from_kirchhoff1) ltac:(unfold f_tensor_det1). Qed.
-Lemma cauchy_from_kirchhoff_ok2 : cauchy_from_kirchhoff_stmt2.
-Proof. unfold cauchy_from_kirchhoff_stmt2. jac ltac:(unfold f_cauchy_from_kirchhoff2_l, f_cauchy_from_kirchhoff2, D_cauchy_from_kirchhoff2_l, D_cauchy_from_kirchhoff2) ltac:(unfold f_tensor_det2). Qed.
-Lemma cauchy_from_kirchhoff_ok3 : cauchy_from_kirchhoff_stmt3.
-Proof. unfold cauchy_from_kirchhoff_stmt3. jac ltac:(unfold f_cauchy_from_kirchhoff3_l, f_cauchy_from_kirchhoff3, D_cauchy_from_kirchhoff3_l, D_cauchy_from_kirchhoff3) ltac:(unfold f_tensor_det3). Qed.
+Lemma pk1_from_cauchy_ok1 : pk1_from_cauchy_stmt1.
+Proof. unfold pk1_from_cauchy_stmt1. jac_t 600 ltac:(lazy beta iota zeta delta [upd nthR List.firstn List.skipn List.app List.nth Nat.mul Nat.add f_pk1_from_cauchy1_l f_pk1_from_cauchy1 D_pk1_from_cauchy1_l D_pk1_from_cauchy1]) ltac:(idtac). Qed.
+Lemma pk1_from_cauchy_ok2 : pk1_from_cauchy_stmt2.
+Proof. unfold pk1_from_cauchy_stmt2. jac_t 600 ltac:(lazy beta iota zeta delta [upd nthR List.firstn List.skipn List.app List.nth Nat.mul Nat.add f_pk1_from_cauchy2_l f_pk1_from_cauchy2 D_pk1_from_cauchy2_l D_pk1_from_cauchy2]) ltac:(idtac). Qed.
+Lemma pk1_from_pk2_ok1 : pk1_from_pk2_stmt1.
+Proof. unfold pk1_from_pk2_stmt1. jac_t 600 ltac:(lazy beta iota zeta delta [upd nthR List.firstn List.skipn List.app List.nth Nat.mul Nat.add f_pk1_from_pk21_l f_pk1_from_pk21 D_pk1_from_pk21_l D_pk1_from_pk21]) ltac:(unfold f_tensor_det1). Qed.
+Lemma pk1_from_pk2_ok2 : pk1_from_pk2_stmt2.
+Proof. unfold pk1_from_pk2_stmt2. jac_t 600 ltac:(lazy beta iota zeta delta [upd nthR List.firstn List.skipn List.app List.nth Nat.mul Nat.add f_pk1_from_pk22_l f_pk1_from_pk22 D_pk1_from_pk22_l D_pk1_from_pk22]) ltac:(unfold f_tensor_det2). Qed.
+Lemma tau_from_pk1_ok1 : tau_from_pk1_stmt1.
+Proof. unfold tau_from_pk1_stmt1. jac_t 600 ltac:(lazy beta iota zeta delta [upd nthR List.firstn List.skipn List.app List.nth Nat.mul Nat.add f_tau_from_pk11_l f_tau_from_pk11 D_tau_from_pk11_l D_tau_from_pk11]) ltac:(unfold f_tensor_det1). Qed.
+Lemma tau_from_pk1_ok2 : tau_from_pk1_stmt2.
+Proof. unfold tau_from_pk1_stmt2. jac_t 600 ltac:(lazy beta iota zeta delta [upd nthR List.firstn List.skipn List.app List.nth Nat.mul Nat.add f_tau_from_pk12_l f_tau_from_pk12 D_tau_from_pk12_l D_tau_from_pk12]) ltac:(unfold f_tensor_det2). Qed.
